@@ -133,6 +133,29 @@ pub fn answer_for(qname: &dnswire::Name, qtype: u16, script: &Value, id: u16) ->
     m
 }
 
+/// A hostile reply: the client's id and question followed by scripted octets.
+fn raw_reply(query: &[u8], w: &dnswalk::Walk, script: &Value) -> Vec<u8> {
+    let mut b = vec![];
+    b.extend(w.id.to_be_bytes());
+    b.extend((script["flags"].as_u64().unwrap_or(0x8180) as u16).to_be_bytes());
+    b.extend((script["qd"].as_u64().unwrap_or(1) as u16).to_be_bytes());
+    for i in 0..3 {
+        b.extend((script["counts"][i].as_u64().unwrap_or(0) as u16).to_be_bytes());
+    }
+    if w.qend > 12 && w.qend <= query.len() {
+        b.extend(&query[12..w.qend]);
+    }
+    b.extend(unhex(script["tail"].as_str().unwrap_or("")));
+    if let Some(n) = script["cut"].as_u64() {
+        b.truncate(n as usize);
+    }
+    b
+}
+
+pub fn unhex(s: &str) -> Vec<u8> {
+    (0..s.len() / 2).map(|i| u8::from_str_radix(&s[2 * i..2 * i + 2], 16).unwrap_or(0)).collect()
+}
+
 /// what the upstream said, in the projection the client side uses too
 fn abstract_reply(m: &AMsg) -> Value {
     let (_, secs) = dnswire::expected(m);
@@ -178,6 +201,12 @@ async fn upstream_udp(sh: Arc<Shared>, k: u64, addr: IpAddr) {
         let kind = script["kind"].as_str().unwrap_or("ok").to_string();
         if nth <= drops || kind == "silent" {
             sh.emit(json!({"ev":"usend","up":k,"proto":"udp","tok":tok,"kind":"drop"}));
+            continue;
+        }
+        if kind == "raw" {
+            let bytes = raw_reply(&buf[..n], &w, &script);
+            let _ = sock.send_to(&bytes, from).await;
+            sh.emit(json!({"ev":"usend","up":k,"proto":"udp","tok":tok,"kind":"raw","len":bytes.len()}));
             continue;
         }
         let mut m = answer_for(&w.qname, w.qtype, &script, w.id);
@@ -258,6 +287,22 @@ async fn upstream_tcp(sh: Arc<Shared>, k: u64, addr: IpAddr) {
                 sh.emit(json!({"ev":"urecv","up":k,"proto":"tcp","tok":tok,"id":w.id,"nth":nth,"from_port":0,"rd":(w.flags >> 8) & 1}));
                 let kind = script["tcp_kind"].as_str().unwrap_or("ok").to_string();
                 if kind == "silent" {
+                    continue;
+                }
+                if kind == "raw" {
+                    // hostile reply over TCP; the frame length may lie too
+                    let bytes = raw_reply(&b, &w, &script);
+                    let flen = match script["tcp_frame"].as_str().unwrap_or("exact") {
+                        "zero" => 0,
+                        "short" => bytes.len().saturating_sub(3),
+                        "long" => bytes.len() + 50,
+                        "max" => 65535,
+                        _ => bytes.len(),
+                    };
+                    let mut framed = (flen as u16).to_be_bytes().to_vec();
+                    framed.extend(&bytes);
+                    let _ = wr.lock().await.write_all(&framed).await;
+                    sh.emit(json!({"ev":"usend","up":k,"proto":"tcp","tok":tok,"kind":"raw","len":bytes.len()}));
                     continue;
                 }
                 let m = answer_for(&w.qname, w.qtype, &script, w.id);
@@ -603,6 +648,172 @@ fn dns(args: &[String]) {
     std::process::exit(0); // background tasks hold sockets; do not wait for them
 }
 
+/// one raw datagram / stream to a DNS listener; replies (if any) are counted, not awaited for long
+async fn send_raw_query(dst: SocketAddr, src: IpAddr, proto: &str, bytes: Vec<u8>) -> usize {
+    match proto {
+        "udp" => {
+            let sock = match tokio::net::UdpSocket::bind(SocketAddr::new(src, 0)).await {
+                Ok(s) => s,
+                Err(_) => return 0,
+            };
+            let _ = sock.send_to(&bytes, dst).await;
+            let mut buf = vec![0u8; 65536];
+            match tokio::time::timeout(std::time::Duration::from_millis(150), sock.recv_from(&mut buf)).await {
+                Ok(Ok(_)) => 1,
+                _ => 0,
+            }
+        }
+        _ => {
+            // "tcp": framed correctly; "tcp-zero"/"tcp-short"/"tcp-long": the frame length lies; "tcp-raw": no frame at all
+            let sock = if src.is_ipv4() { tokio::net::TcpSocket::new_v4() } else { tokio::net::TcpSocket::new_v6() }.unwrap();
+            let _ = sock.bind(SocketAddr::new(src, 0));
+            let mut s = match tokio::time::timeout(std::time::Duration::from_secs(2), sock.connect(dst)).await {
+                Ok(Ok(s)) => s,
+                _ => return 0,
+            };
+            let flen = match proto {
+                "tcp-zero" => Some(0),
+                "tcp-short" => Some(bytes.len().saturating_sub(3)),
+                "tcp-long" => Some(bytes.len() + 50),
+                "tcp-raw" => None,
+                _ => Some(bytes.len()),
+            };
+            let mut framed = vec![];
+            if let Some(l) = flen {
+                framed.extend((l as u16).to_be_bytes());
+            }
+            framed.extend(&bytes);
+            let _ = s.write_all(&framed).await;
+            let mut lb = [0u8; 2];
+            let got = matches!(tokio::time::timeout(std::time::Duration::from_millis(200), s.read_exact(&mut lb)).await, Ok(Ok(_)));
+            let _ = s.shutdown().await;
+            got as usize
+        }
+    }
+}
+
+/// `rig hostile`: C05 at service level.  Batches of hostile client datagrams/streams and hostile
+/// upstream replies (built from the WireGrammar cases) against the real DNS service, then a
+/// valid query that must be answered.  One `svc` event per batch.
+fn hostile(args: &[String]) {
+    let cases = read_ndjson(&arg(args, "--cases").expect("--cases"));
+    let mut out = Trace::create(&arg(args, "--out").expect("--out"));
+    let batch = arg_u64(args, "--batch", 150) as usize;
+    setup_namespace();
+    let rt = tokio::runtime::Builder::new_multi_thread().worker_threads(4).enable_all().build().unwrap();
+    rt.block_on(async {
+        let sh = Shared::new();
+        start_upstreams(&sh, 2);
+        let routes = vec![json!({"suffixes": [""], "kind": "forward", "up": 1})];
+        let _live = start_dns(OPEN_ACLS, &routes).await;
+        let l = listeners();
+        let hname: dnswire::Name = vec![b"h".to_vec(), b"example".to_vec()];
+        for (bi, part) in cases.chunks(batch).enumerate() {
+            out.emit(json!({"ev":"svcstart","case":bi}));
+            out.flush();
+            {
+                let mut s = sh.scripts.lock().unwrap();
+                s.clear();
+                sh.seen.lock().unwrap().clear();
+            }
+            let mut hs = vec![];
+            let mut nhostile = 0usize;
+            let mut nupstream = 0usize;
+            for (i, c) in part.iter().enumerate() {
+                // (1) hostile payloads straight at the listeners
+                for (k, b) in crate::ingest::build(c) {
+                    if k != "dnsq" {
+                        continue;
+                    }
+                    let src: IpAddr = format!("127.0.30.{}", 1 + (i % 200)).parse().unwrap();
+                    let (dst, src) = match i % 3 {
+                        0 => (l.v4, src),
+                        1 => (SocketAddr::new("127.0.0.1".parse().unwrap(), l.dual), src),
+                        _ => (l.v6, "::1".parse().unwrap()),
+                    };
+                    let proto = match i % 11 {
+                        3 => "tcp",
+                        5 => "tcp-short",
+                        7 => "tcp-long",
+                        8 => "tcp-zero",
+                        9 => "tcp-raw",
+                        _ => "udp",
+                    };
+                    nhostile += 1;
+                    hs.push(tokio::spawn(async move { send_raw_query(dst, src, proto, b).await }));
+                }
+                // (2) a valid query whose upstream answers with the hostile parts behind the question
+                if let Some(p) = crate::ingest::dns_parts(c).filter(|_| c["pos"].as_str() != Some("qname")) {
+                    let qtype = 300 + i as u16;
+                    let mut script = json!({"kind":"raw","tcp_kind":"raw","counts":p.counts(),"tail":hex(&p.after_question())});
+                    if let Some(n) = p.cut_after {
+                        script["cut"] = json!(n);
+                    }
+                    // every fifth case: the UDP reply says "truncated", the hostile reply comes over TCP with a lying frame
+                    if i % 5 == 4 {
+                        script["kind"] = json!("tc");
+                        script["tcp_frame"] = json!(["exact", "zero", "short", "long", "max"][(i / 5) % 5]);
+                    }
+                    sh.scripts.lock().unwrap().insert(token_of(&hname, qtype), script);
+                    nupstream += 1;
+                    let q = json!({"q": format!("h{}", i), "listener": "v4", "src": format!("127.0.31.{}", 1 + (i % 200)), "name": ["h", "example"], "id": 1000 + i,
+                                   "qtype": qtype, "adv": 1232, "proto": "udp", "wait_ms": 12000, "linger_ms": 10});
+                    hs.push(tokio::spawn(async move {
+                        client_query_count(q).await
+                    }));
+                }
+                if i % 16 == 15 {
+                    tokio::time::sleep(std::time::Duration::from_millis(2)).await;
+                }
+            }
+            let mut replies = 0usize;
+            for h in hs {
+                replies += h.await.unwrap_or(0);
+            }
+            // (3) the valid request afterwards, over UDP and TCP
+            let mut answered = true;
+            let mut detail = String::new();
+            for (pi, proto) in ["udp", "tcp"].iter().enumerate() {
+                let q = json!({"q": "probe", "listener": "v4", "src": "127.0.20.1", "name": [format!("probe{}x{}", bi, pi), "example"], "id": 7000 + bi, "qtype": 1,
+                               "adv": 1232, "proto": proto, "wait_ms": 6000, "linger_ms": 10});
+                client_query(sh.clone(), q).await;
+            }
+            let evs = sh.drain();
+            for proto in ["udp", "tcp"] {
+                let _ = proto;
+            }
+            let good = evs.iter().filter(|e| e["ev"] == "crecv" && e["q"] == "probe" && e["rcode"] == 0 && e["counts"][0].as_u64().unwrap_or(0) >= 1 && e["id"] == 7000 + bi).count();
+            if good < 2 {
+                answered = false;
+                detail = format!("{} of 2 probes answered", good);
+            }
+            let np = {
+                let mut p = PANICS.lock().unwrap();
+                let n = p.len();
+                let first = p.first().cloned().unwrap_or_default();
+                p.clear();
+                (n, first)
+            };
+            if np.0 > 0 {
+                detail = np.1.clone();
+            }
+            out.emit(json!({"ev":"svc","case":bi,"hostile":nhostile,"hostile_upstream":nupstream,"replies":replies,"panics":np.0,"alive":true,"answered":answered,"detail":detail,
+                            "cases":[part.first().cloned().unwrap_or(json!({})), part.last().cloned().unwrap_or(json!({}))]}));
+            out.flush();
+        }
+    });
+    let n = out.finish();
+    eprintln!("rig hostile: {} cases, {} events", cases.len(), n);
+    std::process::exit(0);
+}
+
+/// a valid query through the normal client; returns how many replies came back
+async fn client_query_count(q: Value) -> usize {
+    let sh = Shared::new();
+    client_query(sh.clone(), q).await;
+    sh.drain().iter().filter(|e| e["ev"] == "crecv").count()
+}
+
 pub fn main(args: &[String]) {
     let mut full = vec!["rig".to_string()];
     full.extend(args.iter().cloned());
@@ -611,6 +822,7 @@ pub fn main(args: &[String]) {
     match args.first().map(|s| s.as_str()) {
         Some("dns") => dns(&args[1..]),
         Some("http") => crate::righttp::http(&args[1..]),
+        Some("hostile") => hostile(&args[1..]),
         _ => {
             eprintln!("usage: rig dns|http ...");
             std::process::exit(2)
